@@ -40,7 +40,7 @@ def values_for(t, rnd, n, dom=None):
     if dom:
         lo, hi = max(lo, dom[0]), min(hi, dom[1])
     cand = {lo, hi, min(hi, lo + 1), max(lo, hi - 1)}
-    for v in (0, 1, 2, 7, 8, 31, 32, 33, 63, 64, 127, 128, 255, 256, 65535, 65536, 2**31 - 1, 2**31, 2**32 - 1, 2**32,
+    for v in tuple(range(0, 17)) + (31, 32, 33, 63, 64, 127, 128, 255, 256, 65535, 65536, 2**31 - 1, 2**31, 2**32 - 1, 2**32,
               2**63 - 1, 2**63, -1, -2, -128, -2**31, -2**63):
         if lo <= v <= hi:
             cand.add(v)
